@@ -208,6 +208,8 @@ class World:
                 v = None
             if v is not None:
                 c.append(W[i] == bv(v, 64))
+            elif i == hw + 2:
+                c.append(z3.Extract(31, 0, W[i]) == 0)  # discarded = 0; the upper half is the header's padding
             elif 8 * i >= self.dofs:
                 c.append(W[i] == bv(0, 64))
             # the words holding reserved bytes / identification bytes / header padding are never read by the encoded code
